@@ -313,7 +313,7 @@ Got runSquid(const Case &c) {
         g.what = "non-std exception";
     }
     drain(true, false);
-    g.consumed = c.payload.size() - inBuf.length();
+    g.consumed = fed - inBuf.length(); // bytes delivered so far minus what the caller still holds
     out.clean();
     Config.onoff.relaxed_header_parser = 0;
     return g;
